@@ -410,6 +410,14 @@ func vfC09Gen(rt *rapid.T) vfC09Case {
 			}
 		}
 	}
+	if c.SubCSR && wild == 0 && rapid.SampledFrom([]int{0, 0, 1}).Draw(rt, "mapRefresh") == 1 {
+		// a map subscription whose token is refreshed later (the handler may change the server tags filter)
+		nextID += 2
+		c.Steps = append(c.Steps,
+			mkFeed([]vfC09Cmd{{Kind: vfC09KSubscribe, Kind2: -1, ID: nextID - 1, Ch: 2, Token: true, SubType: 1}}),
+			vfC09Step{Kind: 1, Idx: 0},
+			mkFeed([]vfC09Cmd{{Kind: vfC09KSubRefresh, Kind2: -1, ID: nextID, Ch: 2, Token: true}}))
+	}
 	for i := 0; i < 8; i++ {
 		c.FinalOrder = append(c.FinalOrder, rapid.SampledFrom([]int{1, 0, 2, 3, 5, 4, 7, 6}).Draw(rt, "forder"))
 		res := 0
@@ -735,7 +743,7 @@ func vfC09Run(t *testing.T, cs vfC09Case, out *vfC09Out, isKnown func(string) bo
 					invoke("sub_refresh", func(b vfC09Behav, err error) {
 						r := SubRefreshReply{ExpireAt: time.Now().Unix() + 7200}
 						switch b.Variant {
-						case 3:
+						case 0, 3:
 							r.ServerTagsFilter = &FilterNode{Key: "k", Cmp: "eq", Val: "v"}
 						case 4:
 							r = SubRefreshReply{ExpireAt: time.Now().Unix() - 10}
